@@ -116,23 +116,32 @@ func VerifC02PoolKey() {
 	rp := c02Proxy()
 	zzverif.Assume(rp != nil)
 	maxS := zzverif.Param("maxStr", 2)
-	key := func(tag string) (string, string, string, string) {
+	key := func(tag string) (string, string, string, string, string) {
 		dom := []string{"d.com", "e.com"}[zzverif.Choice(tag+".dom", 2)]
 		loc := zzverif.StringUpTo(tag+".loc", maxS, "/a.")
 		usr := zzverif.StringUpTo(tag+".user", maxS, "u.")
 		rc := &RouteConfig{Domain: dom, Location: loc, RouteByHTTPUser: usr}
+		// a load-balancing group chooses the member (endpoint) per request
+		ep := []string{"", "m1", "m2"}[zzverif.Choice(tag+".endpoint", 3)]
+		if ep != "" {
+			rc.ChooseEndpointFn = func() (string, error) { return ep, nil }
+		}
 		info := &RequestRouteInfo{Host: dom, URL: "/", RemoteAddr: "9.9.9.9:1"}
 		ctx := context.WithValue(context.WithValue(context.Background(), RouteInfoKey, info), RouteConfigKey, rc)
 		in := (&http.Request{Method: "GET", Host: dom, RemoteAddr: "9.9.9.9:1", URL: &url.URL{Path: "/"}, Header: http.Header{}}).WithContext(ctx)
 		out := in.Clone(ctx)
 		rp.Rewrite(&httputil.ProxyRequest{In: in, Out: out})
-		return out.URL.Host, dom, loc, usr
+		zzverif.Assert(info.Endpoint == ep, "C13.poolkey.request-dialled-through-the-chosen-member")
+		return out.URL.Host, dom, loc, usr, ep
 	}
-	k1, d1, l1, u1 := key("r1")
-	k2, d2, l2, u2 := key("r2")
-	same := d1 == d2 && len(l1) == len(l2) && len(u1) == len(u2) && zzverif.And(zzverif.StrEq(l1, l2), zzverif.StrEq(u1, u2))
+	k1, d1, l1, u1, e1 := key("r1")
+	k2, d2, l2, u2, e2 := key("r2")
+	same := d1 == d2 && e1 == e2 && len(l1) == len(l2) && len(u1) == len(u2) && zzverif.And(zzverif.StrEq(l1, l2), zzverif.StrEq(u1, u2))
 	if len(k1) == len(k2) {
 		zzverif.Assert(zzverif.Implies(zzverif.StrEq(k1, k2), same), "C02.poolkey.injective")
+	}
+	if e1 != e2 {
+		zzverif.Reach("C13.poolkey.two-members")
 	}
 	zzverif.Reach("C02.poolkey.done")
 }
